@@ -11,7 +11,7 @@ const ANNO_NS: &str = "http://www.w3.org/ns/anno/";
 
 const IDS: &[&str] = &["r0", "my res", "http://ex.org/res1", "urn:x:1", "r\"q", "r\\b", "\u{e9}\u{1F600}", "ctl\u{1}x", "tab\tx", "nl\nx", "a/b#c", "cr\rx", "file:///tmp/x y"];
 const KEYS: &[&str] = &["k", "key with space", "k\"q", "k\\b", "http://purl.org/dc/terms/title", "\u{e9}", "tab\tk", "ctl\u{2}"];
-const ANNO_KEYS: &[&str] = &["motivation", "creator", "created", "purpose", "value", "type", "id", "format", "k\"q"];
+const ANNO_KEYS: &[&str] = &["motivation", "creator", "created", "generated", "generator", "purpose", "value", "type", "id", "format", "k\"q"];
 
 fn strings() -> Vec<&'static str> {
     vec!["plain", "", "say \"hi\"", "back\\slash", "ends with backslash\\", "new\nline", "tab\there", "cr\rhere", "ctl\u{1}\u{1f}", "bell\u{7}", "\u{e9}t\u{e9}", "\u{1F600} non-BMP", "\u{2028}sep", "http://ex.org/x", "http://ex.org/a\\b", "urn:isbn:123", "mailto:x@y", "a:b", "http://ex.org/with space", "\\\"", "\"", "\\", "{\"json\": [1,2]}", "</script>", "\u{7f}del", "\u{0}nul"]
